@@ -92,3 +92,4 @@ def run(ctx):
 
     from engine.run import borrow
     borrow(ctx, 'C03', ['TABLE-INDEX'], 'a write call whose sample value steers a table subscript outside the table reads memory outside anything the caller supplied (G.711 float encoders)')
+    borrow(ctx, 'C11', ['BLOCK-RESTORE'], 'items a write call has accepted (w = requested) must reach the file: a header refresh that loses the codec\'s fill count makes the next write overwrite them')
